@@ -70,6 +70,10 @@ fn parse_file(tokens: &mut [RawToken]) -> Vec<LogicalLine> {
     let mut lines = FxHashMap::default();
     let mut attributed_directives = FxHashSet::default();
     for pass_tokens in tree.passes() {
+        #[cfg(feature = "verif")]
+        crate::verif::emit(crate::verif::Event::ParserPass {
+            tokens: pass_tokens.len(),
+        });
         let pass_lines =
             InternalDelphiLogicalLineParser::new(tokens, &pass_tokens, &mut attributed_directives)
                 .parse();
@@ -1961,6 +1965,8 @@ impl<'a, 'b> InternalDelphiLogicalLineParser<'a, 'b> {
     }
 
     fn get_token_index<const OFFSET: isize>(&self) -> Option<usize> {
+        #[cfg(feature = "verif")]
+        crate::verif::step();
         fn find_token_index<'elem, const OFFSET: isize, I: Iterator<Item = &'elem usize>>(
             parser: &LLP,
             iter: I,
